@@ -301,9 +301,10 @@ Proof.
   2:{ split; [ko |]. rewrite W_add_free. use_set_stream K. fold v in HW. unfold sslots in HW. cbn [with_send sendb recvb pinned pend] in HW.
       rewrite !cnt_app in HW. cbn in HW. lia. }
   destruct (sheap v || infb v).
-  - assert (K1 : KeysOK (add_free (sendb v) (set_stream k (with_send v true) s))) by ko.
+  - assert (K0 : KeysOK (add_free (sendb v) (set_stream k (with_send v true) s))) by ko.
+    destruct (do_poll_W x (negb e) _ K0) as [K1 E1].
     destruct (deliver_data_W x (negb e) sid (PFb (sumz sizes)) _ K1) as [K2 E]. split; [exact K2 |].
-    rewrite E, W_add_free. use_set_stream K. fold v in HW. unfold sslots in HW. cbn [with_send sendb recvb pinned pend] in HW.
+    rewrite E, E1, W_add_free. use_set_stream K. fold v in HW. unfold sslots in HW. cbn [with_send sendb recvb pinned pend] in HW.
     rewrite !cnt_app in HW. cbn in HW. cbn. lia.
   - pose proof (cnt_firstn_skipn x (S wpos) (sendb v)) as FS.
     destruct (Z.of_nat (length (queue_to (negb e) s)) >=? qcap s).
@@ -358,7 +359,8 @@ Proof.
       cbn [sendb recvb pinned pend] in HW. rewrite ?cnt_app in *. cbn in HW. lia. }
   destruct (half v); [split; assumption |].
   destruct (infb v || (Z.of_nat (length (queue_to (negb e) s)) >=? qcap s)).
-  - destruct (deliver_close_W x (negb e) sid s3 K3) as [K4 E4]. split; [exact K4 | lia].
+  - destruct (do_poll_W x (negb e) s3 K3) as [K3' E3'].
+    destruct (deliver_close_W x (negb e) sid _ K3') as [K4 E4]. split; [exact K4 | lia].
   - split; [ko |]. rewrite W_enqueue; [cbn; lia |]. unfold s3, s2. destruct (fx s); destruct e; reflexivity.
 Qed.
 
@@ -515,7 +517,7 @@ Proof.
       unfold sslots. cbn [with_send sendb recvb pinned pend]. rewrite B, C, D. reflexivity. }
     assert (S1 : forall fb, Q f (set_stream k (with_send v fb) s)) by (intro fb; apply Q_set_stream; [apply P | exact H]).
     destruct (is_open v); cbn [negb]; [| qfr; apply S1].
-    destruct (_ || _); [apply Q_deliver_data; qfr; apply S1 |].
+    destruct (_ || _); [apply Q_deliver_data; apply Q_fold_deliver; qfr; qfr; apply S1 |].
     destruct (_ >=? _); [qfr; qfr; apply S1 | qfr; qfr; apply S1].
   - apply Q_fold_deliver. qfr. exact H.
   - unfold do_read. destruct (alive _) eqn:Ea; cbn [negb]; [| exact H].
@@ -536,7 +538,7 @@ Proof.
     { destruct (fx s) eqn:Fx; [qfr; exact H2 |]. cbn [close_guard] in G. destruct G as [G|G]; [congruence |].
       fold k v in G. rewrite G. destruct H2 as (A & B & C). split; [exact A | split; [| exact C]].
       cbn [add_leaked leaked]. cbn [add_leaked add_free set_stream leaked] in B. rewrite app_nil_r. exact B. }
-    destruct (half v); [exact H3 |]. destruct (_ || _); [apply Q_deliver_close; exact H3 | qfr; exact H3].
+    destruct (half v); [exact H3 |]. destruct (_ || _); [apply Q_deliver_close; apply Q_fold_deliver; qfr; exact H3 | qfr; exact H3].
   - unfold do_ext_hold. destruct (_ && _); [qfr |]; exact H.
   - qfr. exact H.
   - unfold do_inject. destruct (_ && _); cbn [negb]; [| exact H]. destruct (_ >=? _); [exact H |]. qfr. qfr. exact H.
